@@ -1,8 +1,9 @@
 /-
 Line-protocol driver for the C19 model (query pipeline).
 
-  new <node> <node> ...      stage tree in preorder, node = <S|A|Q|X|C><o|e|p|l|n><#children>
+  new <node> <node> ...      stage tree in preorder, node = <S|A|Q|Z|X|C><o|e|p|l|n><#children>
                              (S sync / A pooled / Q pooled, context cancelled while the task is queued /
+                             Z pooled, the pool is stopped while Submit is blocked on the full queue /
                              X pooled on a stopped pool / C pooled with a
                              cancelled context on a saturated pool — X and C: the pool rejects the task;
                              o ok / e error / p execution panics / l Plan() panics / n NextStages()
@@ -14,7 +15,7 @@ Line-protocol driver for the C19 model (query pipeline).
                              and runs, then a goes on (the window inside completeStage)
   end                        final observation
   leaf-new | leaf-send <nil|err>     LeafExecuteContext.SendResponse
-  leafreq <data|meta|meta-notfound> (<node> ... | - | o | x)    one request on the real leaf path whose stages form this tree
+  leafreq <data|data-collect-fails|meta|meta-notfound> (<node> ... | - | o | x)    one request on the real leaf path whose stages form this tree
                              (`-`: the request is refused before a pipeline exists and the task
                              handler answers; `o`: a request type Process omits; `x`: the task handler's own pool rejects the
                              request; meta-notfound: the suggest callback answers a not-found failure as an empty result): the tree is run to the end (lowest runnable goroutine
@@ -47,7 +48,7 @@ def parseNode (w : String) : Option (Run × Bool × Outcome × Nat) :=
   match w.toList with
   | a :: o :: k =>
     let run? : Option Run :=
-      if a = 'S' then some .inline else if a = 'A' || a = 'Q' then some .pooled
+      if a = 'S' then some .inline else if a = 'A' || a = 'Q' || a = 'Z' then some .pooled
       else if a = 'X' || a = 'C' then some .rejected else none
     let out? : Option (Bool × Outcome) :=
       if o = 'o' then some (false, .ok) else if o = 'e' then some (false, .error)
@@ -89,7 +90,9 @@ def runToGate : Nat → State → Nat → State
 def fuel : Nat := 100000
 
 /-- who answers a request: the regenerated facts about Process's return value and the pool -/
-def reqCfg : ReqCfg := ⟨Generated.C19.processReturnsPipelineErr, Generated.C19.submitRejectNotifies⟩
+def reqCfg : ReqCfg :=
+  ⟨Generated.C19.processReturnsPipelineErr, Generated.C19.submitRejectNotifies,
+   !Generated.C19.unguardedSendResponseCallers.isEmpty⟩
 
 def showResponses (rs : List Bool) : String :=
   let shown := match rs with
@@ -180,11 +183,12 @@ def step (st : St) (ws : List String) : St × String :=
   | ["leafreq", _, "o"] => (st, showResponses (noPipelineResponses reqCfg .omitted))
   | ["leafreq", _, "x"] => (st, showResponses (noPipelineResponses reqCfg .rejected))
   | "leafreq" :: kind :: toks =>
-    match parseTree toks, (if kind = "data" || kind = "meta" then some false
-                            else if kind = "meta-notfound" then some true else none) with
-    | some root, some tolerated =>
+    match parseTree toks, (if kind = "data" || kind = "meta" then some (false, false)
+                            else if kind = "meta-notfound" then some (true, false)
+                            else if kind = "data-collect-fails" then some (false, true) else none) with
+    | some root, some (tolerated, collectFails) =>
       let s := runAll fuel (Pipeline.init root)
-      (st, showResponses (runResponses reqCfg tolerated s))
+      (st, showResponses (runResponses reqCfg tolerated collectFails s))
     | _, _ => (st, "bad-op")
   | ["leaf-new"] => ({ st with leaf := Leaf.init }, "ok")
   | ["leaf-send", e] =>
